@@ -59,8 +59,43 @@ func replayable(t types.Type) bool {
 		return replayable(tt.Elem())
 	case *types.Array:
 		return replayable(tt.Elem()) && tt.Len() <= 64
+	case *types.Struct:
+		// fields outside the replayable types keep their zero value in the replay
+		return true
+	case *types.Pointer:
+		_, ok := tt.Elem().Underlying().(*types.Struct)
+		return ok
 	}
 	return false
+}
+
+// replayFields: the fields of a struct that the replay fills from the model
+func replayFields(st *types.Struct) []int {
+	var out []int
+	for i := 0; i < st.NumFields(); i++ {
+		ft := st.Field(i).Type()
+		if _, isSt := ft.Underlying().(*types.Struct); isSt {
+			continue
+		}
+		if _, isPtr := ft.Underlying().(*types.Pointer); isPtr {
+			continue
+		}
+		if sl, isSl := ft.Underlying().(*types.Slice); isSl {
+			// slices of plain data only (no nested structures: they may be recursive)
+			if _, basic := sl.Elem().Underlying().(*types.Basic); !basic {
+				continue
+			}
+		}
+		if ar, isAr := ft.Underlying().(*types.Array); isAr {
+			if _, basic := ar.Elem().Underlying().(*types.Basic); !basic {
+				continue
+			}
+		}
+		if st.Field(i).Name() != "_" && replayable(ft) {
+			out = append(out, i)
+		}
+	}
+	return out
 }
 
 func (e *Engine) Replay(v OblResult, workDir string) *ReplayResult {
@@ -73,12 +108,20 @@ func (e *Engine) Replay(v OblResult, workDir string) *ReplayResult {
 	if u.contract.PkgPath != "" {
 		fn = e.Funcs[u.contract.PkgPath+"::"+u.contract.Key]
 	}
-	if fn == nil || fn.Signature.Recv() != nil || fn.Parent() != nil || !e.inRepo(fn) {
-		return &ReplayResult{Note: "replay supports package-level functions of the repository only"}
+	if fn == nil || fn.Parent() != nil || !e.inRepo(fn) {
+		return &ReplayResult{Note: "replay supports package-level functions and methods of the repository only (not closures)"}
 	}
 	for _, p := range fn.Params {
 		if !replayable(p.Type()) {
 			return &ReplayResult{Note: "parameter " + p.Name() + " of type " + p.Type().String() + " is outside the replayable data types"}
+		}
+		if sl, ok := p.Type().Underlying().(*types.Slice); ok {
+			if _, isSt := sl.Elem().Underlying().(*types.Struct); isSt {
+				return &ReplayResult{Note: "parameter " + p.Name() + ": slices of structures are outside the replayable data types"}
+			}
+		}
+		if termCount(p.Type()) > 3000 {
+			return &ReplayResult{Note: "parameter " + p.Name() + " is too large to replay"}
 		}
 	}
 	// 1. extract a (small) model
@@ -117,6 +160,14 @@ func (e *Engine) Replay(v OblResult, workDir string) *ReplayResult {
 	call := fn.Name()
 	if fn.Origin() != nil {
 		call = fn.Name() // already carries the instantiation, e.g. toByteSortable[float64]
+	}
+	// the test lives in the function's own package: its types are named without qualifier
+	for i := range args {
+		args[i] = strings.ReplaceAll(args[i], pkg.Name()+".", "")
+	}
+	if fn.Signature.Recv() != nil && len(args) > 0 {
+		call = "(" + args[0] + ")." + fn.Name()
+		args = args[1:]
 	}
 	testSrc, imports := replayTest(pkg, fn, call, args)
 	rr.Test = testSrc
@@ -192,6 +243,22 @@ func (u *Unit) valueTerms(base string, t types.Type, stTag string) []string {
 			ts = append(ts, u.valueTerms(fmt.Sprintf("(select %s %s)", base, m.idxLit(i)), tt.Elem(), stTag)...)
 		}
 		return ts
+	case *types.Struct:
+		u.sortOf(t)
+		var ts []string
+		for _, i := range replayFields(tt) {
+			ts = append(ts, u.valueTerms("("+u.fieldSel(t, i)+" "+base+")", tt.Field(i).Type(), stTag)...)
+		}
+		return ts
+	case *types.Pointer:
+		if st, ok := tt.Elem().Underlying().(*types.Struct); ok {
+			var ts []string
+			for _, i := range replayFields(st) {
+				key := u.keyField(tt.Elem(), i)
+				ts = append(ts, u.valueTerms(fmt.Sprintf("(select %s %s)", q(key+"@"+stTag), base), st.Field(i).Type(), stTag)...)
+			}
+			return ts
+		}
 	}
 	return []string{base}
 }
@@ -207,6 +274,20 @@ func termCount(t types.Type) int {
 		return 1 + replayMaxLen*termCount(tt.Elem())
 	case *types.Array:
 		return int(tt.Len()) * termCount(tt.Elem())
+	case *types.Struct:
+		n := 0
+		for _, i := range replayFields(tt) {
+			n += termCount(tt.Field(i).Type())
+		}
+		return n
+	case *types.Pointer:
+		if st, ok := tt.Elem().Underlying().(*types.Struct); ok {
+			n := 0
+			for _, i := range replayFields(st) {
+				n += termCount(st.Field(i).Type())
+			}
+			return n
+		}
 	}
 	return 1
 }
@@ -224,7 +305,7 @@ func (e *Engine) getValues(o *Obligation, terms []string, workDir string, small 
 	}
 	// heap constants referenced by the terms must exist
 	for _, t := range terms {
-		for _, m := range regexp.MustCompile(`\|?(M\.[^ ()|]+@entry)\|?`).FindAllStringSubmatch(t, -1) {
+		for _, m := range regexp.MustCompile(`\|?((?:M|H)\.[^ ()|]+@entry)\|?`).FindAllStringSubmatch(t, -1) {
 			name := q(m[1])
 			key := strings.TrimSuffix(m[1], "@entry")
 			decl := fmt.Sprintf("(declare-const %s %s)", name, u.keySort[key])
@@ -482,6 +563,35 @@ func goLit(t types.Type, terms []string, vals map[string]string, m Mode) (string
 			rest = rest[per:]
 		}
 		return tn + "{" + strings.Join(els, ", ") + "}", rest, nil
+	case *types.Struct:
+		rest := terms
+		var fs []string
+		for _, i := range replayFields(tt) {
+			per := termCount(tt.Field(i).Type())
+			l, _, err := goLit(tt.Field(i).Type(), rest[:per], vals, m)
+			if err != nil {
+				return "", nil, err
+			}
+			fs = append(fs, tt.Field(i).Name()+": "+l)
+			rest = rest[per:]
+		}
+		return tn + "{" + strings.Join(fs, ", ") + "}", rest, nil
+	case *types.Pointer:
+		if st, ok := tt.Elem().Underlying().(*types.Struct); ok {
+			en := types.TypeString(tt.Elem(), func(p *types.Package) string { return p.Name() })
+			rest := terms
+			var fs []string
+			for _, i := range replayFields(st) {
+				per := termCount(st.Field(i).Type())
+				l, _, err := goLit(st.Field(i).Type(), rest[:per], vals, m)
+				if err != nil {
+					return "", nil, err
+				}
+				fs = append(fs, st.Field(i).Name()+": "+l)
+				rest = rest[per:]
+			}
+			return "&" + en + "{" + strings.Join(fs, ", ") + "}", rest, nil
+		}
 	}
 	return "", nil, fmt.Errorf("type %s", t)
 }
@@ -709,6 +819,35 @@ func (u *Unit) concreteFromModel(t types.Type, terms []string, vals map[string]s
 				arr = fmt.Sprintf("(store %s %s %s)", arr, m.idxLit(i), take(tt.Elem()))
 			}
 			return arr
+		case *types.Struct:
+			u.sortOf(t)
+			fill := map[int]string{}
+			for _, i := range replayFields(tt) {
+				fill[i] = take(tt.Field(i).Type())
+			}
+			if tt.NumFields() == 0 {
+				return u.structCtor(t)
+			}
+			parts := []string{u.structCtor(t)}
+			for i := 0; i < tt.NumFields(); i++ {
+				if v, ok := fill[i]; ok {
+					parts = append(parts, v)
+				} else {
+					parts = append(parts, u.zero(tt.Field(i).Type()))
+				}
+			}
+			return "(" + strings.Join(parts, " ") + ")"
+		case *types.Pointer:
+			if stt, ok := tt.Elem().Underlying().(*types.Struct); ok {
+				// a fresh object holding the model's field values
+				r := *ref + 1000
+				*ref++
+				for _, i := range replayFields(stt) {
+					key := u.keyField(tt.Elem(), i)
+					st.set(key, fmt.Sprintf("(store %s %d %s)", st.get(u, key), r, take(stt.Field(i).Type())))
+				}
+				return fmt.Sprint(r)
+			}
 		}
 		return next()
 	}
